@@ -41,7 +41,7 @@ def build(run: Run):
     run.verify("fickle.Pickled.make_stream#stream", extra_post=make_stream_path)
     run.verify("fickle.Opcode.has_data", "fickle.Opcode.data", "fickle.Opcode.data.setter", "fickle.Pickled.__init__", "fickle.Pickled.__len__",
                "fickle.Pickled.load", "fickle.Pickled.dumps", "fickle.Pickled.dump", "fickle.StackedPickle.__init__", "fickle.StackedPickle.load",
-               "fickle.StackedPickle.__len__", "fickle.StackedPickle.__getitem__")
+               "fickle.StackedPickle.__len__", "fickle.StackedPickle.__getitem__", "fickle.Opcode.encode_body")
     # opcodes without an argument are re-serialised through the base Opcode.encode (their bytes are not stored at parse time):
     # the live tables must resolve encode / encode_opcode / encode_body of every such class to the base implementation
     live = run.repo.live
